@@ -332,7 +332,7 @@ func (p *Prog) compForAddr(addr ssa.Value) string {
 		if _, isStruct := et.Underlying().(*types.Struct); isStruct {
 			return ""
 		}
-		return "A_" + sortKey(sortOf(et))
+		return arrComp(et)
 	case *ssa.Alloc:
 		return "$local"
 	case *ssa.Global:
@@ -385,6 +385,40 @@ func hashString(s string) uint32 {
 
 func fieldComp(structName string, field int) string {
 	return fmt.Sprintf("F_%s_%d", structName, field)
+}
+
+// arrComp: the heap component holding the backing arrays whose elements have
+// Go type et. Arrays of slices are kept apart by element type: Go has no
+// conversion between slices of different element types, so a [][]rune and a
+// [][][]rune can never share a backing array.
+func arrComp(et types.Type) string {
+	s := sortOf(et)
+	if s == SSl {
+		return "A_Sl_" + sanitize(canonType(et))
+	}
+	return "A_" + sortKey(s)
+}
+
+func canonType(t types.Type) string {
+	switch u := types.Unalias(t).Underlying().(type) {
+	case *types.Slice:
+		return "s" + canonType(u.Elem())
+	case *types.Basic:
+		switch u.Kind() {
+		case types.Uint8:
+			return "uint8"
+		case types.Int32:
+			return "int32"
+		}
+		return u.Name()
+	case *types.Pointer:
+		return "p" + canonType(u.Elem())
+	case *types.Interface:
+		if u.Empty() {
+			return "any"
+		}
+	}
+	return shortType(types.Unalias(t))
 }
 
 func sortKey(sort string) string {
@@ -475,7 +509,7 @@ func (p *Prog) callMods(c *ssa.CallCommon, m *ModSet) {
 		case "append", "copy":
 			if len(c.Args) > 0 {
 				if sl, ok := c.Args[0].Type().Underlying().(*types.Slice); ok {
-					m.Comps["A_"+sortKey(sortOf(sl.Elem()))] = true
+					m.Comps[arrComp(sl.Elem())] = true
 				}
 			}
 		case "delete", "clear":
